@@ -56,7 +56,7 @@ class EprMonitor:
             qa = exr._get_register(aid, command.qubit_addr_array)
             n = len(exr._app_arrays[aid]._arrays[ent]) // 10
             role = "create" if mn == "create_epr" else "recv"
-            purpose = self.node.stack.pfun(sock)
+            purpose = self.node.stack.pfun(sock, remote)
             key = (role, remote, purpose)
             rq = exr._epr_create_requests if role == "create" else exr._epr_recv_requests
             if len(rq[(remote, purpose)]) > 1:
